@@ -24,7 +24,7 @@ def ill_edit(rng, p, cols, eng):
     """-> (ill-formed program whose last call is the edit, expected classes, kind)"""
     missing = gen.fresh_tag(rng, cols)
     opts = mp.gen_opts(rng, eng, 0.8)
-    kinds = ["calc_missing", "sel_missing", "sort_missing", "sort_missing_multi", "proj_missing", "slice_neg", "slice_rev", "slice_step",
+    kinds = ["slice_on_empty", "calc_missing", "sel_missing", "sort_missing", "sort_missing_multi", "proj_missing", "slice_neg", "slice_rev", "slice_step",
              "chain_cols", "chain_engine", "join_pred_missing", "join_engine"]
     if cols:
         kinds += ["calc_exists", "unsupported_calc", "unsupported_sel", "unsupported_sort", "proj_swap", "proj_swap", "proj_narrow"]
@@ -51,6 +51,11 @@ def ill_edit(rng, p, cols, eng):
         return ("un", ("proj", sorted(keep | {missing})), opts, p), ["ColumnError"], k
     if k == "proj_missing":
         return ("un", ("proj", sorted(cols | {missing})), opts, p), ["ColumnError"], k
+    if k == "slice_on_empty":
+        # an ill-formed window of a relation that is statically empty (nothing could come out of it anyway)
+        empty = ("un", ("sel", ("plit", False)), mp.DEFAULT, p)
+        bad = rng.choice([(-1, None, None), (3, 1, None), (None, -3, None), (0, 3, 2), (-4, -2, None)])
+        return ("item", bad[0], bad[1], bad[2], empty), ["TypeError"] if bad[2] else ["ValueError"], k
     if k == "slice_neg":
         return ("un", ("slice", -1, rng.choice([None, 3])), opts, p), ["ValueError"], k
     if k == "slice_rev":
